@@ -2,15 +2,18 @@
 
 P-MC:   TLC explores spec/Metabook.tla: from a few seed books every path of <= MaxDepth edits,
         CONTENT edits (append/remove/swap article, change revision/title, wrap in a chapter,
-        set/unset optional fields, change wiki coordinates) and REPRESENTATION edits (key order,
+        set/unset optional fields, add/remove/change WikiConf / License / Source+Interwiki /
+        Custom objects, change ONE component of the wiki coordinates: scheme, userinfo, host,
+        port, path, trailing segment, script_extension, login) and REPRESENTATION edits (key order,
         whitespace, ASCII escaping, who serialised).  EditLaw (evaluated on every generated
         transition) checks the spec's identity: representation edits preserve it, content edits
-        change it.  Two IdentMode switches re-introduce defect classes and must make TLC fail.
+        change it.  Three IdentMode switches re-introduce defect classes and must make TLC fail.
 P-ENUM: TLC prints every seed and transition as JSON.  Every state is built for real (metabook
         classes and client JSON text), and the real myjson.loads/dumps, Collection.dumps,
         calc_checksum and make_collection_id (nserve and serve) are executed:
           state:  project(loads(dumps(x))) = the abstract content (items, order, nesting,
-                  attributes); public attributes of x and of the reloaded object are equal;
+                  attributes); every nested object of the reloaded metabook is an instance of
+                  the same class as in x and has equal public attributes; get_wiki(ident) works;
                   dumps(loads(dumps(x))) = dumps(x); loading the client's text projects to the
                   content; two independently built equal metabooks share no mutable list
           edge:   representation edit -> collection id EQUAL; content edit -> DIFFERENT
@@ -31,9 +34,11 @@ PROPERTY = "C13"
 LEVEL = "model_checking"
 
 ACTIONS = ["AppendArticle", "AppendInChapter", "AppendChapter", "RemoveItem", "SwapItems", "ChangeRevision",
-           "ChangeTitle", "WrapInChapter", "SetOptional", "ChangeWiki", "PermuteKeys", "ChangeWhitespace",
-           "ToggleAsciiEscape", "Reserialise"]
-ALL_SEEDS = ["empty", "one", "two", "nested", "twochap"]
+           "ChangeTitle", "WrapInChapter", "SetOptional", "ChangeWiki", "AppendCustom", "EditWikiConf", "EditLicense",
+           "EditSource", "PermuteKeys", "ChangeWhitespace", "ToggleAsciiEscape", "Reserialise"]
+ALL_SEEDS = ["empty", "one", "two", "nested", "twochap", "kinds"]
+QUICK_SEEDS = ["empty", "two", "nested", "twochap", "kinds"]
+WIKI_COMPONENTS = ["scheme", "user", "host", "port", "path", "seg", "ext", "login"]
 
 CFG = """INIT Init
 NEXT Next
@@ -46,6 +51,7 @@ CONSTANTS
   SeedIds = {%(seeds)s}
   Emit = %(emit)s
   EmitPrefix = "@#"
+  OneComponent = %(onecomp)s
   IdentMode = "%(mode)s"
 INVARIANTS TypeOK EmitSeed
 ACTION_CONSTRAINTS EditLaw EmitEdge
@@ -54,10 +60,10 @@ CHECK_DEADLOCK FALSE
 """
 
 
-def cfg(depth, seeds=ALL_SEEDS, titles=("t1", "t2", "t3"), maxart=4, maxchap=2, emit=True, mode="content"):
+def cfg(depth, seeds=ALL_SEEDS, titles=("t1", "t2"), maxart=4, maxchap=2, emit=True, mode="content", onecomp=True):
     q = lambda xs: ", ".join('"%s"' % x for x in xs)        # noqa: E731
     return CFG % dict(depth=depth, seeds=q(seeds), titles=q(titles), maxart=maxart, maxchap=maxchap,
-                      emit=str(emit).upper(), mode=mode)
+                      emit=str(emit).upper(), mode=mode, onecomp=str(onecomp).upper())
 
 
 # ----------------------------------------------------------------------------- concretisation
@@ -81,20 +87,42 @@ OPT_PALETTE = ["Optionaler Wert – ✓", "サブタイトル", "plain option"]
 def make_cz(seed):
     """Abstract names -> concrete strings (injective), chosen from the palettes by the seed."""
     rng = random.Random("c13/%d" % seed)
-    ts = rng.sample(TITLE_PALETTE, 4)
+    ts = rng.sample(TITLE_PALETTE, 6)
     cz = {"t1": ts[0], "t2": ts[1], "t3": ts[2], "t4": ts[3],
           "r1": rng.choice(["12345", "1"]), "r2": rng.choice(["987654321", "2"]),
           "o1": rng.choice(OPT_PALETTE),
-          "u1": "https://en.wikipedia.org/w/", "u2": rng.choice(["https://de.wikipedia.org/w/", "https://en.wikipedia.org/w", "http://en.wikipedia.org/w/"]),
-          "e1": rng.choice([".php", ".php5"]), "l1": "user:secret:domain"}
-    inv = {v: k for k, v in cz.items()}
-    if len(inv) != len(cz):
+          # components of the base URL
+          "http": "http", "https": "https", "usr": rng.choice(["bot", "u:pw"]),
+          "h1": rng.choice(["en.wikipedia.org", "wiki.example.org"]), "h2": rng.choice(["de.wikipedia.org", "wiki.example.net"]),
+          "p1": "8080", "p2": rng.choice(["8081", "80", "443"]), "pa": "w", "pb": rng.choice(["wiki", "W", "w2"]),
+          "sg": rng.choice(["mobile", "w"]),
+          "e1": rng.choice([".php", ".php5"]), "l1": "user:secret:domain",
+          # the other kinds of objects
+          "w1": "enwiki", "w2": rng.choice(["dewiki", "ENWIKI"]), "b1": "https://en.wikipedia.org/w/", "b2": "https://en.wikipedia.org:8080/w/",
+          "lt1": "GNU Free Documentation License – " + ts[4][:6], "lw1": "== License ==\n" + ts[4], "lw2": "== License ==\n" + ts[5],
+          "sn1": "Wikipédia", "la1": "en", "la2": "pt-br", "i1": "wikt", "cc1": "''custom'' " + ts[5]}
+    inv = {v: k for k, v in cz.items() if k not in ("http", "https", "pa", "sg")}
+    if len(inv) != len(cz) - 4:
         raise ValueError("concretisation is not injective")
     return cz, inv
 
 
 def C(cz, v):
     return None if v == "none" else cz[v]
+
+
+def base_url(w, cz):
+    """scheme://[user@]host[:port]/path/[seg/]"""
+    u = cz[w["scheme"]] + "://"
+    if w["user"] != "none":
+        u += cz[w["user"]] + "@"
+    u += cz[w["host"]]
+    if w["port"] != "none":
+        u += ":" + cz[w["port"]]
+    u += "/" + cz[w["path"]] + "/"
+    if w["seg"] != "none":
+        u += cz[w["seg"]] + "/"
+    return u
 
 
 def client_obj(st, cz):
@@ -112,6 +140,8 @@ def client_obj(st, cz):
     for it in mb["items"]:
         if it["k"] == "a":
             items.append(art(it))
+        elif it["k"] == "x":
+            items.append({"type": "custom", "title": cz[it["title"]], "content": cz[it["content"]]})
         else:
             items.append({"type": "chapter", "title": cz[it["title"]], "items": [art(a) for a in it["items"]]})
     d = {"type": "collection", "version": 1, "title": cz[mb["title"]], "items": items}
@@ -119,6 +149,15 @@ def client_obj(st, cz):
         d["subtitle"] = cz[mb["subtitle"]]
     if mb["editor"] != "none":
         d["editor"] = cz[mb["editor"]]
+    if mb["wikis"]:
+        d["wikis"] = [{"type": "wikiconf", "ident": cz[w["ident"]], "baseurl": cz[w["baseurl"]]} for w in mb["wikis"]]
+    if mb["licenses"]:
+        d["licenses"] = [{"type": "license", "title": cz[x["title"]], "wikitext": cz[x["wikitext"]]} for x in mb["licenses"]]
+    for src in mb["source"]:
+        sd = {"type": "source", "name": cz[src["name"]], "language": cz[src["lang"]]}
+        if src["iw"] != "none":
+            sd["interwikimap"] = [{"type": "interwiki", "prefix": cz[src["iw"]], "local": True}]
+        d["source"] = sd
     return d
 
 
@@ -163,7 +202,7 @@ def request_for(st, cz, M):
         text = M["myjson"].dumps(M["myjson"].loads(text))
     elif ser == "coll":
         text = M["myjson"].loads(text).dumps()
-    req = {"metabook": text, "base_url": cz[st["wiki"]["url"]], "writer": "rl"}
+    req = {"metabook": text, "base_url": base_url(st["wiki"], cz), "writer": "rl"}
     if st["wiki"]["ext"] != "none":
         req["script_extension"] = cz[st["wiki"]["ext"]]
     if st["wiki"]["login"] != "none":
@@ -186,34 +225,117 @@ def build_api(st, cz, M):
             c.items.append(mbm.Chapter(title=cz[it["title"]]))
             for a in it["items"]:          # the last item is a chapter: append_article goes into it
                 c.append_article(cz[a["title"]], C(cz, a["dt"]), revision=C(cz, a["rev"]))
+        elif it["k"] == "x":
+            c.items.append(mbm.Custom(title=cz[it["title"]], content=cz[it["content"]]))
         elif c.items and isinstance(c.items[-1], mbm.Chapter):
             c.items.append(mbm.Article(title=cz[it["title"]], displaytitle=C(cz, it["dt"]), revision=C(cz, it["rev"])))
         else:
             c.append_article(cz[it["title"]], C(cz, it["dt"]), revision=C(cz, it["rev"]))
+    for w in mb["wikis"]:
+        c.wikis.append(mbm.WikiConf(ident=cz[w["ident"]], baseurl=cz[w["baseurl"]]))
+    for x in mb["licenses"]:
+        c.licenses.append(mbm.License(title=cz[x["title"]], wikitext=cz[x["wikitext"]]))
+    for src in mb["source"]:
+        so = mbm.Source(name=cz[src["name"]], language=cz[src["lang"]])
+        if src["iw"] != "none":
+            so.interwikimap = [mbm.make_interwiki({"prefix": cz[src["iw"]], "local": True})]
+        c.source = so
     return c
 
 
 def project(c, inv, M):
-    """Real object -> abstract content in the shape TLC prints (mb)."""
+    """Real object -> abstract content in the shape TLC prints (mb).  An object that is not an
+    instance of the class the content calls for projects to {"k": "?<its type>"}."""
     mbm = M["metabook"]
 
     def nm(v):
-        return "none" if v is None else inv.get(v, "?%r" % (v,))
+        return "none" if v is None else inv.get(v, "?%r" % (v,)) if isinstance(v, str) else "?%r" % (v,)
+
+    def wrong(o):
+        return {"k": "?" + type(o).__name__}
 
     def art(a):
         return {"k": "a", "title": nm(a.title), "rev": nm(a.revision), "dt": nm(a.displaytitle)}
     if type(c) is not mbm.Collection:
-        return {"k": "?" + type(c).__name__}
+        return wrong(c)
     items = []
     for it in c.items:
         if type(it) is mbm.Article:
             items.append(art(it))
         elif type(it) is mbm.Chapter:
             items.append({"k": "c", "title": nm(it.title),
-                          "items": [art(a) if type(a) is mbm.Article else {"k": "?" + type(a).__name__} for a in it.items]})
+                          "items": [art(a) if type(a) is mbm.Article else wrong(a) for a in it.items]})
+        elif type(it) is mbm.Custom:
+            items.append({"k": "x", "title": nm(it.title), "content": nm(it.content)})
         else:
-            items.append({"k": "?" + type(it).__name__})
-    return {"title": nm(c.title), "items": items, "subtitle": nm(c.subtitle), "editor": nm(c.editor)}
+            items.append(wrong(it))
+    wikis = [{"ident": nm(w.ident), "baseurl": nm(w.baseurl)} if type(w) is mbm.WikiConf else wrong(w) for w in c.wikis]
+    lics = [{"title": nm(x.title), "wikitext": nm(x.wikitext)} if type(x) is mbm.License else wrong(x) for x in c.licenses]
+    source = []
+    so = getattr(c, "source", None)
+    if so is not None:
+        if type(so) is not mbm.Source:
+            source.append(wrong(so))
+        else:
+            iwm = getattr(so, "interwikimap", None)
+            if iwm is None:
+                iw = "none"
+            elif isinstance(iwm, list) and len(iwm) == 1 and type(iwm[0]) is mbm.Interwiki and iwm[0].local is True:
+                iw = nm(iwm[0].prefix)
+            else:
+                iw = "?%r" % (iwm,)
+            source.append({"name": nm(so.name), "lang": nm(so.language), "iw": iw})
+    return {"title": nm(c.title), "items": items, "subtitle": nm(c.subtitle), "editor": nm(c.editor),
+            "wikis": wikis, "licenses": lics, "source": source}
+
+
+def same_classes(x, y, M, path="obj"):
+    """Object-level comparison: every nested item of y must be an instance of the same class as
+    the corresponding item of x.  Returns the path of the first difference or None."""
+    if type(x) is not type(y):
+        return "%s: %s instead of %s" % (path, type(y).__name__, type(x).__name__)
+    if isinstance(x, M["metabook"].MetabookObject):
+        for k, v in x.__dict__.items():
+            if k.startswith("_") or v is None:
+                continue
+            if not hasattr(y, k):
+                return "%s.%s missing" % (path, k)
+            d = same_classes(v, getattr(y, k), M, "%s.%s" % (path, k))
+            if d:
+                return d
+    elif isinstance(x, list):
+        if len(x) != len(y):
+            return path + ".length"
+        for a, b in zip(x, y):
+            d = same_classes(a, b, M, path + "[]")
+            if d:
+                return d
+    elif isinstance(x, dict):
+        for k in x:
+            if k not in y:
+                return "%s[%r] missing" % (path, k)
+            d = same_classes(x[k], y[k], M, "%s[%r]" % (path, k))
+            if d:
+                return d
+    return None
+
+
+def check_wikis(c, mb, cz, who):
+    """get_wiki(ident=...) / get_wiki(baseurl=...) find every WikiConf the content lists."""
+    out = []
+    for i, w in enumerate(mb["wikis"]):
+        try:
+            got = c.get_wiki(ident=cz[w["ident"]])
+            if got is not c.wikis[i]:
+                out.append(("get_wiki: %s metabook does not return its WikiConf by ident" % who, "got %r" % (got,)))
+            elif got.baseurl != cz[w["baseurl"]]:
+                out.append(("get_wiki: %s WikiConf has another baseurl" % who, "got %r" % (got,)))
+            first = [j for j, v in enumerate(mb["wikis"]) if v["baseurl"] == w["baseurl"]][0]
+            if c.get_wiki(baseurl=cz[w["baseurl"]]) is not c.wikis[first]:
+                out.append(("get_wiki: %s metabook does not return its WikiConf by baseurl" % who, ""))
+        except Exception as e:                                         # noqa: BLE001
+            out.append(("get_wiki: %s metabook raises %s" % (who, type(e).__name__), "%s: %s" % (type(e).__name__, str(e)[:200])))
+    return out
 
 
 def flat_titles(mb):
@@ -221,7 +343,7 @@ def flat_titles(mb):
     for it in mb["items"]:
         if it["k"] == "a":
             out.append(it["title"])
-        else:
+        elif it["k"] == "c":
             out.extend(a["title"] for a in it["items"])
     return out
 
@@ -287,8 +409,17 @@ def mutate_lists(c, M):
     c.wikis.append(mbm.WikiConf(ident="INTRUDER"))
 
 
-def check_state(st, cz, inv, M):
-    """All per-state obligations.  Returns (ids, problems); problems = [(key, what)]."""
+def _exc_problem(e):
+    import traceback
+    tb = traceback.extract_tb(e.__traceback__)
+    where = "%s:%s" % (os.path.basename(tb[-1].filename), tb[-1].name) if tb else "?"
+    return ("exception %s at %s" % (type(e).__name__, where), "%s: %s" % (type(e).__name__, str(e)[:300]))
+
+
+def check_content(st, cz, inv, M):
+    """Obligations that depend on the metabook only (not on wiki coordinates / representation):
+    construction, round trip per serialiser (object level), fixed point, get_wiki, sharing.
+    Returns (checksum of the API-built metabook or None, problems)."""
     problems = []
     mbm, mj = M["metabook"], M["myjson"]
     want = st["mb"]
@@ -300,10 +431,12 @@ def check_state(st, cz, inv, M):
         x = build_api(st, cz, M)
         p = project(x, inv, M)
         if p != want:
-            bad("construct: metabook built with Collection/Chapter/Article/append_article differs at " + str(first_diff(p, want)),
+            bad("construct: metabook built with mwlib's classes / append_article differs at " + str(first_diff(p, want)),
                 "built %r" % (p,))
         if [inv.get(a.title) for a in x.get_articles()] != flat_titles(want):
             bad("construct: get_articles() order", "got %r" % ([a.title for a in x.get_articles()],))
+        for k, w in check_wikis(x, want, cz, "API-built"):
+            bad(k, w)
         pub_x = public(x, M)
         # ---- round trip and fixed point, for each serialiser the code offers
         for name, dumps in (("myjson.dumps", lambda o: mj.dumps(o)),
@@ -312,43 +445,67 @@ def check_state(st, cz, inv, M):
             t1 = dumps(x)
             y = mj.loads(t1)
             p = project(y, inv, M)
+            cls = same_classes(x, y, M)
+            if cls:
+                bad("roundtrip %s: reloaded object has another class at %s" % (name, cls), "from %s" % (t1[:400],))
             if p != want:
                 bad("roundtrip %s: loads(dumps(x)) differs at %s" % (name, first_diff(p, want)), "reloaded %r from %s" % (p, t1[:300]))
-            elif type(y) is mbm.Collection and pub_x != public(y, M):
+            elif not cls and pub_x != public(y, M):
                 bad("roundtrip %s: attributes differ at %s" % (name, first_diff(public(y, M), pub_x, "obj")),
                     "x=%r y=%r" % (pub_x, public(y, M)))
-            if type(y) is mbm.Collection and [inv.get(a.title) for a in y.get_articles()] != flat_titles(want):
-                bad("roundtrip %s: get_articles() order" % name, "got %r" % ([a.title for a in y.get_articles()],))
+            if type(y) is mbm.Collection:
+                if [inv.get(a.title) for a in y.get_articles()] != flat_titles(want):
+                    bad("roundtrip %s: get_articles() order" % name, "got %r" % ([a.title for a in y.get_articles()],))
+                for k, w in check_wikis(y, want, cz, "reloaded (%s)" % name):
+                    bad(k, w)
             t2 = dumps(y)
             if t2 != t1:
                 bad("fixedpoint %s: dumps(loads(dumps(x))) != dumps(x)" % name, "%s\n!=\n%s" % (t2[:300], t1[:300]))
         # ---- the checksum is a function of the content
-        if mbm.calc_checksum(x) != mbm.calc_checksum(mj.loads(x.dumps())):
+        cks = mbm.calc_checksum(x)
+        text = x.dumps()
+        if cks != mbm.calc_checksum(mj.loads(text)):
             bad("checksum: calc_checksum(loads(dumps(x))) != calc_checksum(x)", "")
-        # ---- the client's text loads to the same content
-        req = request_for(st, cz, M)
-        z = mj.loads(req["metabook"])
-        p = project(z, inv, M)
-        if p != want:
-            bad("load-client-text: differs at %s" % first_diff(p, want), "loaded %r from %s" % (p, req["metabook"][:300]))
-        elif mbm.calc_checksum(z) != mbm.calc_checksum(x):
-            bad("checksum: client text and API-built metabook of equal content have different checksums",
-                "%s\nvs\n%s" % (z.dumps()[:400], x.dumps()[:400]))
         # ---- no shared mutable lists between independently built equal metabooks
         x2 = build_api(st, cz, M)
-        z2 = mj.loads(req["metabook"])
+        z, z2 = mj.loads(text), mj.loads(text)
         mutate_lists(x, M)
         mutate_lists(z, M)
         for who, o in (("API-built", x2), ("loaded", z2)):
             p = project(o, inv, M)
             if p != want:
                 bad("sharing: %s twin changed at %s after appending to the other's lists" % (who, first_diff(p, want)), "twin now %r" % (p,))
-            if o.licenses or o.wikis:
-                bad("sharing: %s twin's licenses/wikis changed" % who, "%r %r" % (o.licenses, o.wikis))
         fresh = mbm.Collection()
         if fresh.items or fresh.licenses or fresh.wikis or mbm.Chapter().items:
             bad("sharing: a fresh Collection()/Chapter() is not empty", "%r" % (fresh,))
-        # ---- the collection id of this request
+        return cks, problems
+    except Exception as e:                                             # noqa: BLE001
+        bad(*_exc_problem(e))
+        return None, problems
+
+
+def check_request(st, cz, inv, M, cks):
+    """Obligations of one request (content + coordinates + representation): the client's text
+    loads to the content, and the collection ids.  Returns (ids, problems)."""
+    problems = []
+    mbm, mj = M["metabook"], M["myjson"]
+    want = st["mb"]
+
+    def bad(key, what):
+        problems.append((key, what))
+
+    try:
+        req = request_for(st, cz, M)
+        z = mj.loads(req["metabook"])
+        p = project(z, inv, M)
+        if p != want:
+            bad("load-client-text: differs at %s" % first_diff(p, want), "loaded %r from %s" % (p, req["metabook"][:300]))
+        else:
+            for k, w in check_wikis(z, want, cz, "loaded"):
+                bad(k, w)
+            if cks is not None and mbm.calc_checksum(z) != cks:
+                bad("checksum: client text and API-built metabook of equal content have different checksums",
+                    "%s" % (z.dumps()[:400],))
         with _Quiet():
             ids = (M["nserve"].make_collection_id(dict(req)), M["serve"].make_collection_id(dict(req)))
             if len(req["metabook"]) % 8 == 0:       # one request in eight is submitted twice
@@ -359,11 +516,23 @@ def check_state(st, cz, inv, M):
             bad("id: malformed", repr(ids))
         return ids, problems
     except Exception as e:                                             # noqa: BLE001
-        import traceback
-        tb = traceback.extract_tb(e.__traceback__)
-        where = "%s:%s" % (os.path.basename(tb[-1].filename), tb[-1].name) if tb else "?"
-        bad("exception %s at %s" % (type(e).__name__, where), "%s: %s" % (type(e).__name__, str(e)[:300]))
+        bad(*_exc_problem(e))
         return None, problems
+
+
+def check_state(st, cz, inv, M, cache=None):
+    """All per-state obligations.  Returns (ids, problems); problems = [(key, what)].  The
+    content-only part is computed once per distinct metabook (cache)."""
+    k = json.dumps(st["mb"], sort_keys=True)
+    hit = cache.get(k) if cache is not None else None
+    if hit is None:
+        cks, problems = check_content(st, cz, inv, M)
+        if cache is not None:
+            cache[k] = (cks,)
+    else:
+        cks, problems = hit[0], []
+    ids, p2 = check_request(st, cz, inv, M, cks)
+    return ids, problems + p2
 
 
 G = {}
@@ -376,11 +545,12 @@ def _worker(arg):
         G["M"] = modules()
         G["M"]["seed"] = G["seed"]
     out = []
-    for i in range(lo, hi):
+    cache = {}
+    for i in G["order"][lo:hi]:                   # states of one metabook are neighbours in this order
         if G["failing"].value >= FAIL_LIMIT:      # a broken implementation fails everywhere: stop early
             out.append((i, None, None))
             continue
-        ids, problems = check_state(G["states"][i], G["cz"], G["inv"], G["M"])
+        ids, problems = check_state(G["states"][i], G["cz"], G["inv"], G["M"], cache)
         if problems:
             with G["failing"].get_lock():
                 G["failing"].value += 1
@@ -430,7 +600,9 @@ def ident_of(st):
 def execute(ctx, states, edges, tag):
     """Run every state against the real code (pool), then check every edge and the global laws."""
     cz, inv = make_cz(ctx.seed)
-    G.update(states=states, cz=cz, inv=inv, seed=ctx.seed, failing=multiprocessing.Value("i", 0))
+    keys = [json.dumps(st["mb"], sort_keys=True) for st in states]
+    order = sorted(range(len(states)), key=lambda i: (keys[i], i))
+    G.update(states=states, cz=cz, inv=inv, seed=ctx.seed, failing=multiprocessing.Value("i", 0), order=order)
     G.pop("M", None)
     step = max(1, len(states) // (ctx.ncpu * 8))
     jobs = [(i, min(len(states), i + step)) for i in range(0, len(states), step)]
@@ -523,10 +695,11 @@ def run_tlc(ctx, cfgtext, name, **kw):
 
 def run(ctx):
     quick = ctx.tier == "quick"
-    plans = [("bfs", dict(depth=3))] if quick else [
-        ("bfs", dict(depth=3, titles=("t1", "t2", "t3"), maxart=4)),
-        ("sim", dict(depth=10, titles=("t1", "t2", "t3", "t4"), maxart=6, maxchap=3)),
+    plans = [("bfs", dict(depth=3, seeds=QUICK_SEEDS))] if quick else [
+        ("bfs", dict(depth=3, seeds=ALL_SEEDS, titles=("t1", "t2", "t3"), maxart=4)),
+        ("sim", dict(depth=10, titles=("t1", "t2", "t3", "t4"), maxart=6, maxchap=3, onecomp=False)),
     ]
+    wiki_edges = set()
     tot_states = tot_trans = 0
     totals = {}
     samples = []
@@ -556,6 +729,9 @@ def run(ctx):
                 ctx.machinery("simulation emitted no transitions")
             tot_states += len(states)
             tot_trans += len(edges)
+        for (a, _n, _s, _d) in edges:
+            if a[1] == "ChangeWiki":
+                wiki_edges.add((a[2], a[3]))
         t0 = _t.time()
         st = execute(ctx, states, edges, mode)
         ctx.note("executed in %.1fs" % (_t.time() - t0))
@@ -570,7 +746,12 @@ def run(ctx):
     if missing:
         ctx.machinery("actions never taken in Metabook: %s" % missing)
     nonvac = {}
+    # every component of the wiki coordinates must have been edited (port: absent->present, and changed)
+    need = {(c, "changed") for c in ("scheme", "host", "port", "path")} | {(c, "added") for c in ("user", "port", "seg", "ext", "login")}
+    if need - wiki_edges:
+        ctx.machinery("no transition for these single-component changes of the wiki coordinates: %s" % sorted(need - wiki_edges))
     for mode, msg in (("no-revision", "a content edit left the identity unchanged"),
+                      ("host-only", "a content edit left the identity unchanged"),
                       ("with-keyorder", "a representation edit changed the identity")):
         r = tlc.run(ctx, "Metabook", cfg(2, emit=False, mode=mode), name="Metabook_nv", workers=1, timeout=300)
         nonvac[mode] = [r.kind, msg if msg in r.out else "?"]
